@@ -411,6 +411,7 @@ contract(
     f"{ROI}:scaled_down_roi",
     ["C17", "C03"],
     inputs=dict(roi=_roi2, scale=Int(ge=1)),
+    requires=[lambda roi: And(*[s.start <= s.stop for s in roi])],
     ensures=[
         (
             "floor-start ceil-stop",
